@@ -17,6 +17,18 @@ pinned suite (102/102) and has a demonstration that fails with it and passes wit
 when first tried; the generators/observables were then strengthened (never the properties or the models' claims) until
 every kept change is reported as a VIOLATION with a concrete replay, while the unchanged tree still exits 0.
 
+Rounds (each by fresh agents that saw only the property text, the list of ideas already used and their own
+worktree): rounds 1-2: 57 changes, 23 missed at first; round 3: 38, 19 missed at first; round 4: 37, 15; round 5:
+36, 12 (of which 5 are only visible to a sibling property's check, e.g. a change that needs `update_discretizer`
+is C17's business even when it was written against C04).  What the misses had in common, and what was added each
+time: rarely used keyword arguments (custom `str_nan`/`str_default`, `verbose`, `colsample`, `n_jobs`,
+`min_freq_mod=0`), row indices other than `0..n-1`, dev samples that differ from train in one modality, call
+sequences (queries between fit and transform, a second `select`/fit in the same process, edits before a JSON round
+trip), special values (0.0 as a boundary, neighbouring doubles, +-inf, int64 above 2^53, numbers in qualitative
+columns, sentinel tokens as data), names that contain other names, and exact boundary frequencies.  After every
+generator change `harness/seed_regress.py` re-runs ALL kept changes, because a new random stream can lose an old
+catch (it did, twice).
+
 | seeded change | breaks | caught by | how |
 |---|---|---|---|
 """ + "\n".join(rows) + "\n\n"
